@@ -77,6 +77,20 @@ Theorem aggressive_nsec_refuses_mixtures :
 Proof. exact aggr_nsec_refuses_mixtures. Qed.
 Print Assumptions aggressive_nsec_refuses_mixtures.
 
+(* incomplete_never_denies: no denial without a record that owns or covers the question name; no
+   NXDOMAIN without, in addition, a record covering the wildcard at the closest encloser as absent.
+   (Errors send the resolver to ordinary resolution; together with the soundness theorems, whose
+   conclusion is only about denials, an incomplete proof never becomes a fabricated denial.) *)
+Theorem incomplete_never_denies :
+  forall q qtype qclass signer recs rc proof,
+  aggr_nsec q qtype qclass signer recs = A_deny rc proof ->
+  (exists r, In r recs /\ (q = c_owner r \/ exists s, classify_interval q r = Some s)) /\
+  (rc = RC_NXDOMAIN ->
+     exists r w ce, In r recs /\ In w recs /\ classify_interval q r = Some S_absent /\
+                    closest_encloser_aggr q r = Some ce /\ classify_interval (ce ++ [star]) w = Some S_absent).
+Proof. exact aggr_nsec_needs_components. Qed.
+Print Assumptions incomplete_never_denies.
+
 (* ---- exact verifiers *)
 Theorem exact_delegation_nsec_sound :
   forall z set, (forall r, In r set -> genuine z r) ->
